@@ -552,6 +552,10 @@ func runWithFault(run *hx.Run, plan []planStep, fs faultSpec, disk bool, emit bo
 }
 
 func caseC12(run *hx.Run, r *hx.Rng, caseNo int) {
+	if caseNo%8 == 1 {
+		caseC12Large(run, r, caseNo)
+		return
+	}
 	items := genHistoryC12(r, run)
 	plan := makePlan(r, items, genCuts(r, items, r.Pick(20, 40, 70)), 0)
 	// reference: the uninterrupted run
@@ -584,25 +588,7 @@ func caseC12(run *hx.Run, r *hx.Rng, caseNo int) {
 		}
 		for _, fs := range specs {
 			disk := r.Chance(diskPct) && (run.Tier == "thorough" || diskRuns == 0) || (diskRuns == 0 && fs.atReal >= 2)
-			if disk {
-				diskRuns++
-				run.Tag("c12:on-disk-database-reopened")
-			}
-			s, fired := runWithFault(run, plan, fs, disk, true, fmt.Sprintf("c12=%d", caseNo))
-			if fired {
-				s.reboot()
-				got := c12Obs(s)
-				if got != refFinal {
-					sig := "C12/resume-differs-from-uninterrupted-run"
-					c := lastFault
-					if c.hit == "wal" && c.prev == "acc" && accountsOf(got) != accountsOf(refFinal) && stripAccounts(got) == stripAccounts(refFinal) {
-						sig = "C12/duplicate-account-record-after-fault-between-account-record-and-wallet-index"
-					}
-					run.Violate(sig, fmt.Sprintf("fault %s in block #%d (write %d / km %d, hit %s after %s): final %s ; uninterrupted %s", fs.kind, bi, fs.atReal, fs.kmAt, c.hit, c.prev, got, refFinal), s.lines...)
-				}
-				run.Tag("c12:fault-run")
-			}
-			s.close()
+			faultAndCompare(run, plan, fs, disk, refFinal, fmt.Sprintf("c12=%d", caseNo))
 		}
 		// measurement (outside the property's fault model, which covers writes / key-manager calls / commit): a READ
 		// error of validateOperators' OperatorsExist is wrapped into a MalformedEventError, i.e. swallowed
@@ -651,6 +637,118 @@ func caseC12(run *hx.Run, r *hx.Rng, caseNo int) {
 			}
 			s.close()
 		}
+	}
+}
+
+// faultAndCompare: one fault run (blocks before, the fault, new process, resume to the end) against the final state
+// of the uninterrupted real run.
+func faultAndCompare(run *hx.Run, plan []planStep, fs faultSpec, disk bool, refFinal, extra string) {
+	if disk {
+		diskRuns++
+		run.Tag("c12:on-disk-database-reopened")
+	}
+	s, fired := runWithFault(run, plan, fs, disk, true, extra)
+	if fired {
+		s.reboot()
+		got := c12Obs(s)
+		if got != refFinal {
+			sig := "C12/resume-differs-from-uninterrupted-run"
+			c := lastFault
+			if c.hit == "wal" && c.prev == "acc" && accountsOf(got) != accountsOf(refFinal) && stripAccounts(got) == stripAccounts(refFinal) {
+				sig = "C12/duplicate-account-record-after-fault-between-account-record-and-wallet-index"
+			}
+			run.Violate(sig, fmt.Sprintf("fault %s in block #%d (write %d / km %d, hit %s after %s): final %s ; uninterrupted %s", fs.kind, fs.blockIdx, fs.atReal, fs.kmAt, c.hit, c.prev, got, refFinal), s.lines...)
+		}
+		run.Tag("c12:fault-run")
+	}
+	s.close()
+}
+
+// caseC12Large: one block with 130..400 cheap events (fee recipients, ValidatorAdded attempts that only bump the
+// nonce, unknown topics) between two small blocks; crash / error points drawn over ALL its writes: the first ones,
+// around every 128th event, random ones, the last event writes, the marker write, the commit.
+func caseC12Large(run *hx.Run, r *hx.Rng, caseNo int) {
+	run.Tag("c12:large-block-case")
+	var ops []*event
+	for i := 0; i < 4; i++ {
+		rsa := 2 + r.Intn(nRSA-1)
+		if i == 0 {
+			rsa = 1
+		}
+		ops = append(ops, &event{Kind: "OA", ID: uint64(i + 1), Owner: 1, RSA: rsa})
+	}
+	n := 130 + r.Intn(271)
+	var big []*event
+	for i := 0; i < n; i++ {
+		c := r.Intn(100)
+		switch {
+		case c < 55:
+			big = append(big, &event{Kind: "FR", Owner: 1 + r.Intn(nOwners), Fee: 1 + r.Intn(nAddr)})
+		case c < 85: // committee exists, share data sized correctly, signature bytes are garbage: nonce bumped, nothing else
+			e := &event{Kind: "VA", Owner: 1 + r.Intn(nOwners), Val: 1 + r.Intn(nVal), SN: -1, Len: -1}
+			for j := 0; j < 4; j++ {
+				e.Mem = append(e.Mem, member{Op: uint64(j + 1), Key: 1 + j})
+			}
+			big = append(big, e)
+		case c < 95: // no operators: rejected by validateOperators after the bump
+			big = append(big, &event{Kind: "VA", Owner: 1 + r.Intn(nOwners), Val: 1 + r.Intn(nVal), SN: -1, Len: -1})
+		default:
+			big = append(big, &event{Kind: "UK"})
+		}
+	}
+	b0 := uint64(1 + r.Intn(3))
+	plan := []planStep{
+		{blk: true, num: b0, evs: ops},
+		{blk: true, num: b0 + 1 + uint64(r.Intn(3)), evs: big},
+	}
+	plan = append(plan, planStep{blk: true, num: plan[1].num + 1, evs: []*event{{Kind: "FR", Owner: 1, Fee: 2}, {Kind: "VA", Owner: 1, Val: 1, SN: -1, Len: -1}}})
+	extra := fmt.Sprintf("c12=%d", caseNo)
+	ref := newSession(run, true, false, extra)
+	writes := 0
+	for i, st := range plan {
+		ref.block(st.num, st.evs)
+		if i == 1 {
+			writes = ref.p.ctl.n
+		}
+	}
+	ref.reboot()
+	refFinal := c12Obs(ref)
+	ref.close()
+	run.Tag(fmt.Sprintf("c12:large-block-writes-%d00s", writes/100))
+	cand := []int{0, 1, 126, 127, 128, 129, 130, 254, 255, 256, 257, 258, 383, 384, 385, writes - 4, writes - 3, writes - 2, writes - 1}
+	extraPts := 3
+	if run.Tier == "thorough" {
+		extraPts = 10
+	}
+	for i := 0; i < extraPts; i++ {
+		cand = append(cand, r.Intn(writes))
+	}
+	// quick tier: a spread subset, always including late writes, the marker write and the commit
+	seen := map[int]bool{}
+	var pts []int
+	for _, w := range cand {
+		if w >= 0 && w < writes && !seen[w] {
+			seen[w] = true
+			pts = append(pts, w)
+		}
+	}
+	if run.Tier != "thorough" {
+		keep := map[int]bool{writes - 1: true, writes - 2: true, writes - 3: true}
+		var sub []int
+		for _, w := range pts {
+			if keep[w] || r.Chance(45) {
+				sub = append(sub, w)
+			}
+		}
+		pts = sub
+	}
+	for i, w := range pts {
+		kind := "crash"
+		if (i+caseNo)%2 == 1 {
+			kind = "error"
+		}
+		faultAndCompare(run, plan, faultSpec{1, kind, w, -1}, false, refFinal, extra)
+		run.Seen(fmt.Sprintf("large:%s:%d", kind, w*8/writes))
 	}
 }
 
